@@ -1,5 +1,6 @@
 # -*- coding: utf-8 -*-
 import ast
+import builtins
 import importlib.util
 import logging
 import os
@@ -13,6 +14,7 @@ from importlib.util import decode_source, find_spec, spec_from_loader
 from types import CodeType, ModuleType
 from typing import TYPE_CHECKING, Callable, Dict, Generator, List, Optional, Tuple
 
+from pyccolo.extra_builtins import GUARD_PREFIX
 from pyccolo.trace_events import TraceEvent
 from pyccolo.utils import clone_function
 
@@ -162,14 +164,31 @@ class TraceLoader(SourceFileLoader):
             )
         return source_path
 
+    def _register_guards(self, code: CodeType) -> None:
+        # guard names are registered (defined in builtins) by the rewriter; bytecode that comes
+        # from the cache refers to them without the rewriter having run in this process
+        pending = [code]
+        while pending:
+            code_obj = pending.pop()
+            for name in code_obj.co_names:
+                if name.startswith(GUARD_PREFIX) and not hasattr(builtins, name):
+                    self._tracers[-1].guards.add(name)
+                    setattr(builtins, name, True)
+            pending.extend(
+                const for const in code_obj.co_consts if isinstance(const, CodeType)
+            )
+
     def get_code(self, fullname) -> Optional[CodeType]:
         if all(tracer.bytecode_caching_allowed for tracer in self._tracers):
             with self.patch_cache_handlers():
-                return super().get_code(fullname)
+                code = super().get_code(fullname)
         else:
             source_path = self.get_filename(fullname)
             source_bytes = self.get_data(source_path)
-            return self.source_to_code(source_bytes, source_path)
+            code = self.source_to_code(source_bytes, source_path)
+        if code is not None:
+            self._register_guards(code)
+        return code
 
     def get_augmented_source(self, source_path) -> str:
         source_bytes = super().get_data(source_path)
